@@ -274,6 +274,7 @@ SHAPES = {
     "version 3 program (no subroutines yet)": "#pragma version 3\ntxn Amount\nbz z\nint 0\nreturn\nz:\nint 1\nreturn\n",
     "program without a version line": "txn Amount\nint 0\n==\n",
     "instructions the optimisation detectors report": "#pragma version 6\nint 0\ngtxns Amount\npop\ntxn GroupIndex\ngtxns Amount\npop\ntxna Accounts 0\npop\ntxn GroupIndex\ngtxnsa ApplicationArgs 0\npop\nint 1\nreturn\n",
+    "subroutine that jumps back to its own entry": "#pragma version 6\ncallsub f\ncallsub f\nint 1\nreturn\nf:\ntxn Amount\nbz out\nint 1\npop\nb f\nout:\nretsub\n",
     # the assembler accepts retsub anywhere; executed outside a subroutine it fails (nothing to return to)
     "retsub in the main program": "#pragma version 6\ntxn Amount\nbz ok\nretsub\nok:\nint 1\nreturn\n",
     "retsub in the main program next to a subroutine": "#pragma version 6\ntxn Amount\nbz ok\nretsub\nok:\ncallsub f\nint 1\nreturn\nf:\nretsub\n",
@@ -653,8 +654,22 @@ def rule_global_edges_programs(ctx, rep):
             teal = w.call(pt, src, "c")
             fn = w.call(cf, teal, ["B0"])
             blocks = {w.getattr(b, "idx"): b for b in w.getattr(fn, "blocks")}
+
+            def tables():
+                out = {}
+                for sname, sub in w.getattr(fn, "subroutines").items():
+                    out[sname] = ([w.getattr(x, "idx") for x in w.call(w.method(fn, "caller_blocks"), sub)],
+                                  [w.getattr(x, "idx") for x in w.call(w.method(fn, "return_point_blocks"), sub)])
+                return out
+            before = tables()
             nxt = {i: sorted(w.getattr(x, "idx") for x in w.call(nb, fn, b)) for i, b in blocks.items()}
             prv = {i: sorted(w.getattr(x, "idx") for x in w.call(pb, fn, b)) for i, b in blocks.items()}
+            nxt2 = {i: sorted(w.getattr(x, "idx") for x in w.call(nb, fn, b)) for i, b in blocks.items()}
+            prv2 = {i: sorted(w.getattr(x, "idx") for x in w.call(pb, fn, b)) for i, b in blocks.items()}
+            after = tables()
+            rep.check(before == after and nxt == nxt2 and prv == prv2, rule, f"{name}: asking for global neighbours changes nothing", where,
+                      {k: after[k] for k in after if after[k] != before.get(k)} or {"second answer differs": [i for i in prv if prv[i] != prv2[i] or nxt[i] != nxt2[i]]}, "the function's caller and return-point tables, and the answers, as before",
+                      why="a query of the graph edits the function's tables (or returns a list the function keeps using)")
         except PyRaise as e:
             rep.violation(rule, f"{name}: runs", where, f"RAISES {e.exc} {e.where}", "global neighbours")
             continue
